@@ -378,7 +378,7 @@ for _k, (_P, _expr, _mode) in enumerate(_pairs):
     _names = ['t%d' % i for i in range(len(_P))]
     _sym = _mode == 'symbolic'
     _keyed = '@k' in _expr
-    define(_SRC.format(budget=(220 if _keyed else 90) if TIER == 'quick' else (300 if _keyed else (120 if not _sym else 80)), P=tuple(_P), expr=_expr, k=_k,
+    define(_SRC.format(budget=(260 if _keyed else 160) if TIER == 'quick' else (300 if _keyed else (120 if not _sym else 80)), P=tuple(_P), expr=_expr, k=_k,
                        bound='shape %s (comment and text node %s), template %s: every labelling over {a,b,c}, $n any integer' % (
                            tuple(_P), _mode, _expr), targs=', '.join('%s: str' % x for x in _names),
                        tnames=', '.join(_names), extra_args=(', wc: bool, wt: bool' if _sym else '') + (', k1: bool, k3: bool' if _keyed else ''),
